@@ -5,7 +5,9 @@ import (
 	"fmt"
 	"os"
 	"path/filepath"
+	"strconv"
 	"strings"
+	"time"
 
 	"verif/mc"
 )
@@ -19,6 +21,9 @@ func checkC16(c *mc.Ctx) {
 	c.Ev.Rule = "controlled cooperative scheduler over independent Demuxer/Muxer instances sharing the package-level pool: scheduling points at thread start/end and at every pool Get/Put (the library's only synchronisation operations), plus a data choice at Get (which pooled item is handed out); depth-first exploration of all choice sequences within a preemption bound and a pool-item deviation bound, every execution run to completion on the real code with pooled buffers poisoned on Put; every returned value deep-copied at delivery and re-compared after every later call; separate free-running pass of the same bodies in 2/8/64 goroutines under the race detector; distinct_nontrivial = distinct schedules executed"
 	c.Ev.Assumptions = append(c.Ev.Assumptions, "no shared mutable state other than the pool (premise of the partial-order reduction; checked by the race pass)",
 		"the sync.Pool shim may hand out any pooled item or a fresh one (a superset of what sync.Pool does)")
+	if t0, err := strconv.ParseInt(os.Getenv("VERIF_C16_T0"), 10, 64); err == nil && t0 > 0 {
+		c.Start = time.Unix(t0, 0) // wall time includes the two passes c16.sh ran before this collector
+	}
 	dir := filepath.Join(mc.Root, "bin", "c16")
 	var sched struct {
 		Violations []map[string]any `json:"violations"`
